@@ -3,112 +3,287 @@ import BfeVerif.C18.Proofs
   C18 — condition primitives implement their documented matching.
   Property theorems only (helper lemmas are in `Proofs.lean`).
 
-  `matchPrim` = Fetcher ∘ Matcher as wired in buildPrimitive; `specPrim` = the documented test
-  (docs/en_us/condition/request/*.md), with "a missing attribute makes the primitive false".
+  `matchPrim o prim a0 a1 fold r` = Fetcher ∘ Matcher as wired in buildPrimitive for ALL 56 primitives of
+  funcProtos; `specPrim` = the documented test (docs/en_us/condition/**), "the attribute exists and passes
+  the test".  `o : Orc` are the external functions (regexp, murmur3 bucket, net.ParseIP, ParseTime, Sscanf):
+  every theorem holds for all of them.
 
-  FULL STATEMENT (C18, for the modelled primitives), false on the current tree (see the witnesses):
-      ∀ prim a0 a1 fold pips r, matchPrim prim a0 a1 fold pips r = specPrim prim a0 a1 fold pips r
+  FULL STATEMENT (C18), false on the current tree (see the four witnesses):
+      ∀ o prim a0 a1 fold r, matchPrim o prim a0 a1 fold r = specPrim o prim a0 a1 fold r
 -/
 namespace BfeVerif.C18
 open BfeVerif.C17 (Bytes splitOn upper bytesLt isV4)
 
-/-- exact match against a `|` list, with the documented case handling (for every pattern list and value) -/
-theorem C18_in_matcher (ps : Bytes) (fold : Bool) (v : Bytes) : inM ps fold v = specIn ps fold v :=
-  inM_eq_spec ps fold v
+/-- `in(v, patterns)` — the binary search of sort.SearchStrings — is membership on EVERY sorted list. -/
+theorem C18_binsearch_mem (a : List Bytes) (v : Bytes) (hs : Sorted a) : inSorted v a = true ↔ v ∈ a :=
+  inSorted_iff_mem a v hs
 
-/-- prefix match against a `|` list, with the documented case handling -/
-theorem C18_prefix_matcher (ps : Bytes) (fold : Bool) (v : Bytes) : prefixM ps fold v = specPrefix ps fold v :=
-  prefixM_eq_spec ps fold v
+/-- InMatcher / NewInMatcher with ANY sort function that returns a sorted list with the same members:
+    the documented exact match (with case folding).  The sortedness the binary search needs is that of the
+    list AFTER folding — discharged here because the model (like NewInMatcher) sorts after `toUpper`. -/
+theorem C18_in_matcher_any_sort (sort : List Bytes → List Bytes)
+    (hsorted : ∀ l, Sorted (sort l)) (hmem : ∀ l v, v ∈ sort l ↔ v ∈ l)
+    (ps : Bytes) (fold : Bool) (v : Bytes) : inMWith sort ps fold v = specIn ps fold v :=
+  inMWith_eq_spec sort hsorted hmem ps fold v
 
-/-- primitives whose attribute always exists and whose matcher is proved: path / method -/
-theorem C18_path_method (prim : String) (h : prim ∈ ["req_path_in", "req_path_prefix_in", "req_method_in"])
-    (a0 a1 : Bytes) (fold : Bool) (pips : List (Option Bytes)) (r : Req) :
-    matchPrim prim a0 a1 fold pips r = specPrim prim a0 a1 fold pips r := by
+/-- the sort used by the executable model meets that contract (non-vacuity of the previous theorem) -/
+theorem C18_sort_contract : (∀ l, Sorted (sortStrings l)) ∧ (∀ l v, v ∈ sortStrings l ↔ v ∈ l) :=
+  ⟨sorted_sortStrings, fun l v => mem_sortStrings v l⟩
+
+/-- sorting BEFORE folding does not give what the search needs: ["B","a"] is sorted, its folding ["B","A"] is
+    not, and the search misses "A" (this is the seeded change the check caught). -/
+theorem C18_sort_before_fold_breaks :
+    inSorted (upper [97]) ((sortStrings [[66], [97]]).map upper) = false ∧ upper [97] ∈ (sortStrings [[66], [97]]).map upper := by
+  decide
+
+theorem C18_in_matcher (ps : Bytes) (fold : Bool) (v : Bytes) : inM ps fold v = specIn ps fold v := inM_eq_spec ps fold v
+theorem C18_prefix_matcher (ps : Bytes) (fold : Bool) (v : Bytes) : prefixM ps fold v = specPrefix ps fold v := prefixM_eq_spec ps fold v
+theorem C18_suffix_matcher (ps : Bytes) (fold : Bool) (v : Bytes) : suffixM ps fold v = specSuffix ps fold v := suffixM_eq_spec ps fold v
+theorem C18_contain_matcher (ps : Bytes) (fold : Bool) (v : Bytes) : containM ps fold v = specContain ps fold v := containM_eq_spec ps fold v
+theorem C18_path_element_matcher (ps : Bytes) (fold : Bool) (v : Bytes) : pathElemM ps fold v = specPathElem ps fold v := pathElemM_eq_spec ps fold v
+
+/-- the primitives for which model = documented meaning holds for ALL arguments, requests and oracles
+    (a missing attribute makes them false) -/
+def unconditional : List String := ["default_t", "req_cip_trusted", "req_proto_secure", "req_proto_match", "req_host_tag_in", "req_method_in", "req_path_in", "req_path_prefix_in", "req_path_suffix_in", "req_path_contain", "req_path_element_prefix_in", "req_path_regmatch", "req_url_regmatch", "req_query_exist", "req_query_key_in", "req_query_key_prefix_in", "req_cookie_key_in", "req_cookie_value_in", "req_cookie_value_prefix_in", "req_cookie_value_suffix_in", "req_cookie_value_contain", "req_cookie_value_hash_in", "req_tag_match", "req_context_value_in", "req_cip_range", "req_vip_range", "ses_vip_range", "ses_sip_range", "req_cip_hash_in", "req_vip_in", "res_code_in", "ses_tls_sni_in", "ses_tls_client_auth", "ses_tls_client_ca_in", "bfe_time_range", "bfe_periodic_time_range"]
+
+theorem C18_unconditional (prim : String) (h : prim ∈ unconditional)
+    (o : Orc) (a0 a1 : Bytes) (fold : Bool) (r : Req) :
+    matchPrim o prim a0 a1 fold r = specPrim o prim a0 a1 fold r := by
+  unfold unconditional at h
   simp only [List.mem_cons, List.mem_nil_iff, or_false] at h
-  rcases h with rfl | rfl | rfl <;> simp [matchPrim, specPrim, inM_eq_spec, prefixM_eq_spec]
+  rcases h with rfl | rfl | rfl | rfl | rfl | rfl | rfl | rfl | rfl | rfl | rfl | rfl | rfl | rfl | rfl | rfl | rfl | rfl | rfl | rfl | rfl | rfl | rfl | rfl | rfl | rfl | rfl | rfl | rfl | rfl | rfl | rfl | rfl | rfl | rfl | rfl
+  · exact eq_default_t o a0 a1 fold r
+  · exact eq_req_cip_trusted o a0 a1 fold r
+  · exact eq_req_proto_secure o a0 a1 fold r
+  · exact eq_req_proto_match o a0 a1 fold r
+  · exact eq_req_host_tag_in o a0 a1 fold r
+  · exact eq_req_method_in o a0 a1 fold r
+  · exact eq_req_path_in o a0 a1 fold r
+  · exact eq_req_path_prefix_in o a0 a1 fold r
+  · exact eq_req_path_suffix_in o a0 a1 fold r
+  · exact eq_req_path_contain o a0 a1 fold r
+  · exact eq_req_path_element_prefix_in o a0 a1 fold r
+  · exact eq_req_path_regmatch o a0 a1 fold r
+  · exact eq_req_url_regmatch o a0 a1 fold r
+  · exact eq_req_query_exist o a0 a1 fold r
+  · exact eq_req_query_key_in o a0 a1 fold r
+  · exact eq_req_query_key_prefix_in o a0 a1 fold r
+  · exact eq_req_cookie_key_in o a0 a1 fold r
+  · exact eq_req_cookie_value_in o a0 a1 fold r
+  · exact eq_req_cookie_value_prefix_in o a0 a1 fold r
+  · exact eq_req_cookie_value_suffix_in o a0 a1 fold r
+  · exact eq_req_cookie_value_contain o a0 a1 fold r
+  · exact eq_req_cookie_value_hash_in o a0 a1 fold r
+  · exact eq_req_tag_match o a0 a1 fold r
+  · exact eq_req_context_value_in o a0 a1 fold r
+  · exact eq_req_cip_range o a0 a1 fold r
+  · exact eq_req_vip_range o a0 a1 fold r
+  · exact eq_ses_vip_range o a0 a1 fold r
+  · exact eq_ses_sip_range o a0 a1 fold r
+  · exact eq_req_cip_hash_in o a0 a1 fold r
+  · exact eq_req_vip_in o a0 a1 fold r
+  · exact eq_res_code_in o a0 a1 fold r
+  · exact eq_ses_tls_sni_in o a0 a1 fold r
+  · exact eq_ses_tls_client_auth o a0 a1 fold r
+  · exact eq_ses_tls_client_ca_in o a0 a1 fold r
+  · exact eq_bfe_time_range o a0 a1 fold r
+  · exact eq_bfe_periodic_time_range o a0 a1 fold r
 
-/-- cookie values: a missing cookie makes the primitive false, a present one is matched as documented -/
-theorem C18_cookie_value (prim : String) (h : prim ∈ ["req_cookie_value_in", "req_cookie_value_prefix_in"])
-    (a0 a1 : Bytes) (fold : Bool) (pips : List (Option Bytes)) (r : Req) :
-    matchPrim prim a0 a1 fold pips r = specPrim prim a0 a1 fold pips r := by
+/-- header / query value primitives (in, prefix, suffix, contain, regmatch, hash): documented meaning
+    WHEN the header / query key is present -/
+def headerValuePrims : List String := ["req_header_value_in", "req_header_value_prefix_in", "req_header_value_suffix_in", "req_header_value_contain", "req_header_value_regmatch", "req_header_value_hash_in"]
+def queryValuePrims : List String := ["req_query_value_in", "req_query_value_prefix_in", "req_query_value_suffix_in", "req_query_value_contain", "req_query_value_regmatch", "req_query_value_hash_in"]
+def valuePrims : List String := headerValuePrims ++ queryValuePrims
+
+theorem C18_header_value_present_partial (prim : String) (h : prim ∈ headerValuePrims)
+    (o : Orc) (a0 a1 : Bytes) (fold : Bool) (r : Req) (v : Bytes) (hp : assoc a0 r.headers = some v) :
+    matchPrim o prim a0 a1 fold r = specPrim o prim a0 a1 fold r := by
+  unfold headerValuePrims at h
   simp only [List.mem_cons, List.mem_nil_iff, or_false] at h
-  rcases h with rfl | rfl <;> simp only [matchPrim, specPrim] <;> cases assoc a0 r.cookies <;>
-    simp [inM_eq_spec, prefixM_eq_spec]
+  rcases h with rfl | rfl | rfl | rfl | rfl | rfl
+  · exact eq_req_header_value_in o a0 a1 fold r v hp
+  · exact eq_req_header_value_prefix_in o a0 a1 fold r v hp
+  · exact eq_req_header_value_suffix_in o a0 a1 fold r v hp
+  · exact eq_req_header_value_contain o a0 a1 fold r v hp
+  · exact eq_req_header_value_regmatch o a0 a1 fold r v hp
+  · exact eq_req_header_value_hash_in o a0 a1 fold r v hp
 
-/-- **C18_header_query_value_partial**: header / query values are matched as documented WHEN the
-    header / query key is present in the request. -/
-theorem C18_header_query_value_partial (a0 a1 : Bytes) (fold : Bool) (pips : List (Option Bytes)) (r : Req) :
-    ((assoc a0 r.headers).isSome →
-      matchPrim "req_header_value_in" a0 a1 fold pips r = specPrim "req_header_value_in" a0 a1 fold pips r ∧
-      matchPrim "req_header_value_prefix_in" a0 a1 fold pips r = specPrim "req_header_value_prefix_in" a0 a1 fold pips r) ∧
-    ((assoc a0 r.query).isSome →
-      matchPrim "req_query_value_in" a0 a1 fold pips r = specPrim "req_query_value_in" a0 a1 fold pips r ∧
-      matchPrim "req_query_value_prefix_in" a0 a1 fold pips r = specPrim "req_query_value_prefix_in" a0 a1 fold pips r) := by
+theorem C18_query_value_present_partial (prim : String) (h : prim ∈ queryValuePrims)
+    (o : Orc) (a0 a1 : Bytes) (fold : Bool) (r : Req) (v : Bytes) (hp : assoc a0 r.query = some v) :
+    matchPrim o prim a0 a1 fold r = specPrim o prim a0 a1 fold r := by
+  unfold queryValuePrims at h
+  simp only [List.mem_cons, List.mem_nil_iff, or_false] at h
+  rcases h with rfl | rfl | rfl | rfl | rfl | rfl
+  · exact eq_req_query_value_in o a0 a1 fold r v hp
+  · exact eq_req_query_value_prefix_in o a0 a1 fold r v hp
+  · exact eq_req_query_value_suffix_in o a0 a1 fold r v hp
+  · exact eq_req_query_value_contain o a0 a1 fold r v hp
+  · exact eq_req_query_value_regmatch o a0 a1 fold r v hp
+  · exact eq_req_query_value_hash_in o a0 a1 fold r v hp
+
+theorem C18_ua_res_header_partial (o : Orc) (a0 a1 : Bytes) (fold : Bool) (r : Req) :
+    ((assoc uaKey r.headers).isSome → matchPrim o "req_ua_regmatch" a0 a1 fold r = specPrim o "req_ua_regmatch" a0 a1 fold r) ∧
+    ((∀ p, r.resp = some p → (assoc a0 p.headers).isSome) →
+      matchPrim o "res_header_value_in" a0 a1 fold r = specPrim o "res_header_value_in" a0 a1 fold r) := by
   constructor
   · intro h
-    cases hv : assoc a0 r.headers with
-    | none => rw [hv] at h; simp at h
-    | some v => simp [matchPrim, specPrim, headerGet, hv, inM_eq_spec, prefixM_eq_spec]
-  · intro h
-    cases hv : assoc a0 r.query with
-    | none => rw [hv] at h; simp at h
-    | some v => simp [matchPrim, specPrim, queryGet, hv, inM_eq_spec, prefixM_eq_spec]
+    cases hv : assoc uaKey r.headers with
+    | none => rw [hv] at h; cases h
+    | some v => exact eq_req_ua_regmatch o a0 a1 fold r v hv
+  · exact eq_res_header_value_in o a0 a1 fold r
 
+/-- host primitives: documented host name for Host values without an IPv6 literal; port primitive: also
+    not starting with ':' -/
+theorem C18_host_port_partial (o : Orc) (a0 a1 : Bytes) (fold : Bool) (r : Req) (h : r.host.head? ≠ some 91) :
+    matchPrim o "req_host_in" a0 a1 fold r = specPrim o "req_host_in" a0 a1 fold r ∧
+    matchPrim o "req_host_suffix_in" a0 a1 fold r = specPrim o "req_host_suffix_in" a0 a1 fold r ∧
+    matchPrim o "req_host_regmatch" a0 a1 fold r = specPrim o "req_host_regmatch" a0 a1 fold r ∧
+    (r.host.head? ≠ some 58 → matchPrim o "req_port_in" a0 a1 fold r = specPrim o "req_port_in" a0 a1 fold r) :=
+  ⟨eq_req_host_in o a0 a1 fold r h, eq_req_host_suffix_in o a0 a1 fold r h, eq_req_host_regmatch o a0 a1 fold r h,
+   fun h2 => eq_req_port_in o a0 a1 fold r h h2⟩
+
+/-- header key primitives: documented meaning when no header of the request / response has an empty value -/
+theorem C18_header_key_partial (o : Orc) (a0 a1 : Bytes) (fold : Bool) (r : Req) :
+    ((∀ kv ∈ r.headers, kv.2 ≠ []) →
+      matchPrim o "req_header_key_in" a0 a1 fold r = specPrim o "req_header_key_in" a0 a1 fold r) ∧
+    ((∀ p, r.resp = some p → ∀ kv ∈ p.headers, kv.2 ≠ []) →
+      matchPrim o "res_header_key_in" a0 a1 fold r = specPrim o "res_header_key_in" a0 a1 fold r) :=
+  ⟨eq_req_header_key_in o a0 a1 fold r, eq_res_header_key_in o a0 a1 fold r⟩
+
+/-- every primitive of funcProtos is covered by one of the theorems above -/
+theorem C18_all_primitives_covered :
+    (BfeVerif.Generated.C17.funcProtosS.map (·.1)).all (fun n =>
+      unconditional.contains n || valuePrims.contains n ||
+      ["req_ua_regmatch", "res_header_value_in", "req_host_in", "req_host_suffix_in", "req_host_regmatch",
+       "req_port_in", "req_header_key_in", "res_header_key_in"].contains n) = true := by decide
+
+/-- **missing attribute ⇒ false**, where it is true: cookie, client / virtual / socket address, response,
+    TLS state, context, tag, unparsable debug time -/
+theorem C18_missing_false (o : Orc) (a0 a1 : Bytes) (fold : Bool) (r : Req) :
+    (assoc a0 r.cookies = none →
+      matchPrim o "req_cookie_value_in" a0 a1 fold r = some false ∧
+      matchPrim o "req_cookie_value_prefix_in" a0 a1 fold r = some false ∧
+      matchPrim o "req_cookie_value_suffix_in" a0 a1 fold r = some false ∧
+      matchPrim o "req_cookie_value_contain" a0 a1 fold r = some false ∧
+      matchPrim o "req_cookie_value_hash_in" a0 a1 fold r ≠ some true) ∧
+    (r.cip = none → matchPrim o "req_cip_range" a0 a1 fold r ≠ some true ∧ matchPrim o "req_cip_hash_in" a0 a1 fold r ≠ some true) ∧
+    (r.vip = none → matchPrim o "req_vip_range" a0 a1 fold r ≠ some true ∧ matchPrim o "ses_vip_range" a0 a1 fold r ≠ some true ∧
+      matchPrim o "req_vip_in" a0 a1 fold r ≠ some true) ∧
+    (r.sip = none → matchPrim o "ses_sip_range" a0 a1 fold r ≠ some true) ∧
+    (r.resp = none → matchPrim o "res_code_in" a0 a1 fold r = some false ∧ matchPrim o "res_header_key_in" a0 a1 fold r = some false ∧
+      matchPrim o "res_header_value_in" a0 a1 fold r = some false) ∧
+    ((r.secure = false ∨ r.tls = none) → matchPrim o "ses_tls_sni_in" a0 a1 fold r = some false ∧
+      matchPrim o "ses_tls_client_auth" a0 a1 fold r = some false ∧ matchPrim o "ses_tls_client_ca_in" a0 a1 fold r = some false) ∧
+    (r.ctx = none → matchPrim o "req_context_value_in" a0 a1 fold r = some false) ∧
+    (tagsOf r a0 = none → matchPrim o "req_tag_match" a0 a1 fold r = some false) ∧
+    (timeOf o r = none → matchPrim o "bfe_time_range" a0 a1 fold r ≠ some true ∧
+      matchPrim o "bfe_periodic_time_range" a0 a1 fold r ≠ some true) := by
+  refine ⟨?_, ?_, ?_, ?_, ?_, ?_, ?_, ?_, ?_⟩
+  · intro h
+    have hc : cookieF r a0 = .err := by unfold cookieF; rw [h]
+    refine ⟨?_, ?_, ?_, ?_, ?_⟩
+    · rw [mEq_req_cookie_value_in, hc]; rfl
+    · rw [mEq_req_cookie_value_prefix_in, hc]; rfl
+    · rw [mEq_req_cookie_value_suffix_in, hc]; rfl
+    · rw [mEq_req_cookie_value_contain, hc]; rfl
+    · rw [mEq_req_cookie_value_hash_in, hc]; unfold mHash; cases hashSections a1 <;> simp [onStr]
+  · intro h
+    constructor
+    · rw [mEq_req_cip_range, h]; exact mIpRange_none o a0 a1
+    · rw [mEq_req_cip_hash_in, h]; unfold mHash; cases hashSections a0 <;> simp [onStr]
+  · intro h
+    refine ⟨?_, ?_, ?_⟩
+    · rw [mEq_req_vip_range, h]; exact mIpRange_none o a0 a1
+    · rw [mEq_ses_vip_range, h]; exact mIpRange_none o a0 a1
+    · rw [mEq_req_vip_in, h]; simp only [ipFetch]; split <;> simp
+  · intro h
+    rw [mEq_ses_sip_range, h]; exact mIpRange_none o a0 a1
+  · intro h
+    refine ⟨?_, ?_, ?_⟩
+    · rw [mEq_res_code_in, h]; rfl
+    · rw [mEq_res_header_key_in, h]
+    · rw [mEq_res_header_value_in]; unfold rhdrF; rw [h]; rfl
+  · intro h
+    refine ⟨?_, ?_, ?_⟩
+    · rw [mEq_ses_tls_sni_in]; unfold sniOf
+      rcases h with h | h
+      · rw [h]; rfl
+      · rw [h]; cases r.secure <;> rfl
+    · rw [mEq_ses_tls_client_auth]
+      rcases h with h | h
+      · rw [h]
+      · rw [h]; cases r.secure <;> rfl
+    · rw [mEq_ses_tls_client_ca_in]; unfold caOf
+      rcases h with h | h
+      · rw [h]; rfl
+      · rw [h]; cases r.secure <;> rfl
+  · intro h
+    rw [mEq_req_context_value_in]; unfold ctxOf; rw [h]; rfl
+  · intro h
+    rw [mEq_req_tag_match, h]
+  · intro h
+    constructor
+    · rw [mEq_bfe_time_range, h]
+      rcases o.x.parseTime a0 with _ | s <;> rcases o.x.parseTime a1 with _ | e <;> simp
+    · rw [mEq_bfe_periodic_time_range, h]
+      rcases C17.parseTimeOfDay o.x a0 with _ | _ | ⟨s1, o1⟩ <;>
+        rcases C17.parseTimeOfDay o.x a1 with _ | _ | ⟨s2, o2⟩ <;> simp
+
+/-! ### witnesses: the full statement is false on the current tree -/
+def orc0 : Orc :=
+  { x := { regexOk := fun _ => true, parseIP := fun _ => none, parseTime := fun _ => none, sscanf6 := fun _ => none },
+    reMatch := fun _ v => v.isEmpty, bucket := fun _ => 0 }
 def emptyReq : Req := { host := [], path := [47], method := [71, 69, 84], query := [], headers := [], cookies := [],
                         tags := [], cip := none, vip := none }
 
-/-- **C18_missing_witness**: the full statement is false — `req_header_value_in("X", "", false)` and
-    `req_query_value_prefix_in("k", "", false)` are TRUE on a request that has no header X / no query key k
-    (the fetchers return "" for an absent attribute); documented: a missing attribute makes the primitive false. -/
+/-- **C18_missing_witness**: `req_header_value_in("X", "", false)`, `req_query_value_prefix_in("k", "", false)` and
+    `req_header_value_regmatch("X", re)` with a regexp that matches "" are TRUE on a request without header X /
+    query key k (the fetchers return "" for an absent attribute); documented: missing attribute ⇒ false. -/
 theorem C18_missing_witness :
-    matchPrim "req_header_value_in" [88] [] false [] emptyReq = some true ∧
-    specPrim "req_header_value_in" [88] [] false [] emptyReq = some false ∧
-    matchPrim "req_query_value_prefix_in" [107] [] false [] emptyReq = some true ∧
-    specPrim "req_query_value_prefix_in" [107] [] false [] emptyReq = some false := by decide
-
-/-- client address range: both bounds are included, a request without client address never matches,
-    and ranges with reversed bounds or mixed IPv4/IPv6 bounds are build errors -/
-theorem C18_cip_range (a0 a1 : Bytes) (fold : Bool) (pips : List (Option Bytes)) (r : Req) :
-    matchPrim "req_cip_range" a0 a1 fold pips r = specPrim "req_cip_range" a0 a1 fold pips r := by
-  simp only [matchPrim, specPrim, ipLe]
-
-theorem C18_cip_range_bounds (s e : Bytes) (h4 : isV4 s = isV4 e) (hle : bytesLt e s = false) (r : Req) :
-    matchPrim "req_cip_range" [] [] false [some s, some e] { r with cip := some s } = some true ∧
-    matchPrim "req_cip_range" [] [] false [some s, some e] { r with cip := some e } = some true ∧
-    matchPrim "req_cip_range" [] [] false [some s, some e] { r with cip := none } = some false := by
-  have irr : ∀ a : Bytes, bytesLt a a = false := by
-    intro a; induction a with
-    | nil => rfl
-    | cons x xs ih => simp [bytesLt, ih]
-  simp [matchPrim, h4, hle, ipLe, irr]
-
-/-- host name: for Host values that do not start with `[` (no IPv6 literal) the host primitives see
-    the documented host name (the part before the optional `:port`) -/
-theorem C18_host_partial (a0 a1 : Bytes) (fold : Bool) (pips : List (Option Bytes)) (r : Req)
-    (h : r.host.head? ≠ some 91) :
-    matchPrim "req_host_in" a0 a1 fold pips r = specPrim "req_host_in" a0 a1 fold pips r := by
-  have hh : (specHostPort r.host).1 = hostOf r.host := by
-    unfold specHostPort hostOf
-    cases hr : r.host with
-    | nil => rfl
-    | cons c cs =>
-      rw [hr] at h
-      have : c ≠ 91 := by intro hc; apply h; simp [hc]
-      split
-      · rename_i heq; simp at heq; exact absurd heq.1 this
-      · rfl
-  simp [matchPrim, specPrim, patterns, hh, inM_eq_spec]
-
-/-- **C18_port_witness**: `req_port_in("8080")` is false for `Host: [::1]:8080` (the port is cut at the
-    first colon of the IPv6 literal) and for `Host: :8080`; documented: the port of the request. -/
-theorem C18_port_witness :
-    matchPrim "req_port_in" [56, 48, 56, 48] [] false [] { emptyReq with host := [91, 58, 58, 49, 93, 58, 56, 48, 56, 48] } = some false ∧
-    specPrim "req_port_in" [56, 48, 56, 48] [] false [] { emptyReq with host := [91, 58, 58, 49, 93, 58, 56, 48, 56, 48] } = some true := by
+    matchPrim orc0 "req_header_value_in" [88] [] false emptyReq = some true ∧
+    specPrim orc0 "req_header_value_in" [88] [] false emptyReq = some false ∧
+    matchPrim orc0 "req_query_value_prefix_in" [107] [] false emptyReq = some true ∧
+    specPrim orc0 "req_query_value_prefix_in" [107] [] false emptyReq = some false ∧
+    matchPrim orc0 "req_header_value_regmatch" [88] [97, 42] false emptyReq = some true ∧
+    specPrim orc0 "req_header_value_regmatch" [88] [97, 42] false emptyReq = some false := by
+  rw [mEq_req_header_value_in, sEq_req_header_value_in, mEq_req_query_value_prefix_in, sEq_req_query_value_prefix_in,
+    mEq_req_header_value_regmatch, sEq_req_header_value_regmatch]
   decide
 
+/-- **C18_missing_hash_witness**: `req_header_value_hash_in("X", "0", false)` is TRUE without header X whenever
+    the empty string hashes into a configured bucket. -/
+theorem C18_missing_hash_witness :
+    matchPrim orc0 "req_header_value_hash_in" [88] [48] false emptyReq = some true ∧
+    specPrim orc0 "req_header_value_hash_in" [88] [48] false emptyReq = some false := by
+  rw [mEq_req_header_value_hash_in, sEq_req_header_value_hash_in]
+  decide
+
+/-- **C18_port_witness**: `req_port_in("8080")` is false for `Host: [::1]:8080` and for `Host: :8080`. -/
+theorem C18_port_witness :
+    matchPrim orc0 "req_port_in" [56, 48, 56, 48] [] false { emptyReq with host := [91, 58, 58, 49, 93, 58, 56, 48, 56, 48] } = some false ∧
+    specPrim orc0 "req_port_in" [56, 48, 56, 48] [] false { emptyReq with host := [91, 58, 58, 49, 93, 58, 56, 48, 56, 48] } = some true ∧
+    matchPrim orc0 "req_port_in" [56, 48, 56, 48] [] false { emptyReq with host := [58, 56, 48, 56, 48] } = some false ∧
+    specPrim orc0 "req_port_in" [56, 48, 56, 48] [] false { emptyReq with host := [58, 56, 48, 56, 48] } = some true := by
+  rw [mEq_req_port_in, sEq_req_port_in, mEq_req_port_in, sEq_req_port_in]
+  decide
+
+/-- **C18_header_key_witness**: a header present with an empty value is not seen by `req_header_key_in`. -/
+theorem C18_header_key_witness :
+    matchPrim orc0 "req_header_key_in" [88] [] false { emptyReq with headers := [([88], [])] } = some false ∧
+    specPrim orc0 "req_header_key_in" [88] [] false { emptyReq with headers := [([88], [])] } = some true := by
+  rw [mEq_req_header_key_in, sEq_req_header_key_in]
+  decide
+
+/-- address ranges include both bounds -/
+theorem C18_ip_range_bounds (s e : Bytes) (hle : bytesLt e s = false) :
+    ipRangeM s e s = true ∧ ipRangeM s e e = true := by
+  simp [ipRangeM, ipLe, hle, lt_irrefl]
+
 /-! Non-vacuity -/
-example : matchPrim "req_path_prefix_in" [47, 65] [] true [] { emptyReq with path := [47, 97, 47, 98] } = some true := by decide
-example : (assoc [88] { emptyReq with headers := [([88], [118])] }.headers).isSome = true := by decide
-example : specPrim "req_header_value_in" [88] [86] true [] { emptyReq with headers := [([88], [118])] } = some true := by decide
+example : Sorted [[65], [66, 67], [97]] := by unfold Sorted; decide
+example : inSorted [66, 67] [[65], [66, 67], [97]] = true := by decide
+example : matchPrim orc0 "req_path_suffix_in" [46, 74, 80, 71] [] true { emptyReq with path := [47, 120, 46, 106, 112, 103] } = some true := by
+  rw [mEq_req_path_suffix_in]; decide
+example : (assoc [88] { emptyReq with headers := [([88], [118])] }.headers) = some [118] := by decide
 
 end BfeVerif.C18
